@@ -1,16 +1,38 @@
 S = "simplify.py"
 E = "expr_container.py"
+
+_IF1 = ("            if idx1[0] == idx2[0] and idx1[0] not in target and \\\n"
+        "                    idx_counter[idx1[0]] == 2:")
+_IF2 = ("            elif idx1[1] == idx2[1] and idx1[1] not in target and \\\n"
+        "                    idx_counter[idx1[1]] == 2:")
+_BRANCHES = (_IF1 + "\n                delta = KroneckerDelta(idx1[1], idx2[1])\n            # U_qp U_rp = delta_qr\n" + _IF2 +
+             "\n                delta = KroneckerDelta(idx1[0], idx2[0])\n            else:  # no matching indices\n                continue\n")
+_LOWER = ("            if i1 == i2:\n"
+          "                base, exponent = obj[i1].base_and_exponent\n"
+          "                new_term *= Pow(base, exponent - 2)\n"
+          "            else:\n"
+          "                b1, exponent1 = obj[i1].base_and_exponent\n"
+          "                b2, exponent2 = obj[i2].base_and_exponent\n"
+          "                new_term *= Pow(b1, exponent1 - 1)\n"
+          "                new_term *= Pow(b2, exponent2 - 1)\n")
+_REST = ("            for i, o in enumerate(obj):\n"
+         "                if i == i1 or i == i2:\n"
+         "                    continue\n"
+         "                else:\n"
+         "                    new_term *= o\n")
+
 WITNESSES = [
+    # ------------------------------------------------------------------ breaking edits
     dict(id="c20-target-guard", prop="C20", file=S, expect="R20a",
-         old="            if idx1[0] == idx2[0] and idx1[0] not in target and \\\n                    idx_counter[idx1[0]] == 2:", new="            if idx1[0] == idx2[0] and \\\n                    idx_counter[idx1[0]] == 2:"),
+         old=_IF1, new="            if idx1[0] == idx2[0] and \\\n                    idx_counter[idx1[0]] == 2:"),
     dict(id="c20-counter-guard", prop="C20", file=S, expect="R20a",
-         old="            elif idx1[1] == idx2[1] and idx1[1] not in target and \\\n                    idx_counter[idx1[1]] == 2:", new="            elif idx1[1] == idx2[1] and idx1[1] not in target:"),
+         old=_IF2, new="            elif idx1[1] == idx2[1] and idx1[1] not in target:"),
     dict(id="c20-counter-ge", prop="C20", file=S, expect="R20a",
-         old="            if idx1[0] == idx2[0] and idx1[0] not in target and \\\n                    idx_counter[idx1[0]] == 2:", new="            if idx1[0] == idx2[0] and idx1[0] not in target and \\\n                    idx_counter[idx1[0]] >= 2:"),
+         old=_IF1, new="            if idx1[0] == idx2[0] and idx1[0] not in target and \\\n                    idx_counter[idx1[0]] >= 2:"),
     dict(id="c20-wrong-position", prop="C20", file=S, expect="R20a",
          old="                delta = KroneckerDelta(idx1[0], idx2[0])", new="                delta = KroneckerDelta(idx1[0], idx2[1])"),
     dict(id="c20-counter-other-index", prop="C20", file=S, expect="R20a",
-         old="            elif idx1[1] == idx2[1] and idx1[1] not in target and \\\n                    idx_counter[idx1[1]] == 2:", new="            elif idx1[1] == idx2[1] and idx1[1] not in target and \\\n                    idx_counter[idx1[0]] == 2:"),
+         old=_IF2, new="            elif idx1[1] == idx2[1] and idx1[1] not in target and \\\n                    idx_counter[idx1[0]] == 2:"),
     dict(id="c20-exponent", prop="C20", file=S, expect="R20b",
          old="                new_term *= Pow(base, exponent - 2)", new="                new_term *= Pow(base, exponent - 1)"),
     dict(id="c20-rest-dropped", prop="C20", file=S, expect="R20b",
@@ -19,6 +41,118 @@ WITNESSES = [
          old="        idx_counter = Counter(term.idx)", new="        idx_counter = Counter(term.contracted)"),
     dict(id="c20-idx-counter-abs", prop="C20", file=E, expect="R20c",
          old="            n = abs(o.exponent)  # abs value for denominators", new="            n = 1"),
+    # new checks of the re-founded module
+    dict(id="c20-mixed-positions", prop="C20", file=S, expect="R20a",
+         old="            else:  # no matching indices\n                continue\n",
+         new="            elif idx1[0] == idx2[1] and idx1[0] not in target and \\\n                    idx_counter[idx1[0]] == 2:\n"
+             "                delta = KroneckerDelta(idx1[1], idx2[0])\n            else:  # no matching indices\n                continue\n"),
+    dict(id="c20-second-exponent-kept", prop="C20", file=S, expect="R20",
+         old="                new_term *= Pow(b2, exponent2 - 1)", new="                new_term *= Pow(b2, exponent2)"),
+    dict(id="c20-assumptions-dropped", prop="C20", file=S, expect="R20b",
+         old="            new_term = e.Expr(delta, **term.assumptions)", new="            new_term = e.Expr(delta)"),
+    dict(id="c20-result-assumptions-dropped", prop="C20", file=S, expect="R20",
+         old="    res = e.Expr(0, **expr.assumptions)", new="    res = e.Expr(0)"),
+    dict(id="c20-name-prefix", prop="C20", file=S, expect="R20c",
+         old="if o.name == t_name", new="if o.name is not None and o.name.startswith(t_name)"),
+    dict(id="c20-name-ignored-case", prop="C20", file=S, expect="R20c",
+         old="if o.name == t_name", new="if o.name is not None and o.name.lower() == t_name.lower()"),
+    dict(id="c20-exponent-multiplicity", prop="C20", file=S, expect=["R20b", "R20c"],
+         old="        unitary_tensors = [i for i, o in enumerate(obj) if o.name == t_name\n                           for _ in range(o.exponent)]",
+         new="        unitary_tensors = [i for i, o in enumerate(obj) if o.name == t_name]"),
+    dict(id="c20-evaluate-always", prop="C20", file=S, expect="R20c",
+         old="    if evaluate_deltas:\n", new="    if evaluate_deltas is not None:\n"),
+    dict(id="c20-evaluate-never", prop="C20", file=S, expect="R20c",
+         old="    if evaluate_deltas:\n", new="    if evaluate_deltas is None:\n"),
+    dict(id="c20-evaluate-no-targets", prop="C20", file=S, expect="R20c",
+         old="func.evaluate_deltas(res.sympy)", new="func.evaluate_deltas(res.sympy, target_idx=\"\")"),
+    dict(id="c20-evaluate-container", prop="C20", file=S, expect="R20c",
+         old="func.evaluate_deltas(res.sympy)", new="func.evaluate_deltas(res)"),
+    dict(id="c20-evaluate-per-term", prop="C20", file=S, expect="R20c",
+         old="        res += simplify_term_unitary(term)\n",
+         new="        res += func.evaluate_deltas(simplify_term_unitary(term).sympy)\n"),
+    dict(id="c20-type-guard", prop="C20", file=S, expect="R20b",
+         old="    if not isinstance(expr, e.Expr):\n        raise TypeError(f\"Expr needs to be provided as {e.Expr}.\")\n\n    res = e.Expr(0, **expr.assumptions)",
+         new="    res = e.Expr(0, **expr.assumptions)"),
+    dict(id="c20-no-recursion", prop="C20", file=S, expect="R20b",
+         old="            return simplify_term_unitary(new_term.terms[0])", new="            return new_term.terms[0]"),
+    dict(id="c20-need-three", prop="C20", file=S, expect="R20",
+         old="        if len(unitary_tensors) < 2:", new="        if len(unitary_tensors) <= 2:"),
+    dict(id="c20-one-index-accepted", prop="C20", file=S, expect="R20a",
+         old="        if any(len(obj[i].idx) != 2 for i in unitary_tensors):", new="        if any(len(obj[i].idx) > 2 for i in unitary_tensors):"),
+    dict(id="c20-three-index-accepted", prop="C20", file=S, expect="R20a",
+         old="        if any(len(obj[i].idx) != 2 for i in unitary_tensors):", new="        if any(len(obj[i].idx) < 2 for i in unitary_tensors):"),
+    dict(id="c20-last-term-only", prop="C20", file=S, expect="R20b",
+         old="        res += simplify_term_unitary(term)\n", new="        res = simplify_term_unitary(term)\n"),
+    dict(id="c20-first-pair-only", prop="C20", file=S, expect="R20",
+         old="            else:  # no matching indices\n                continue\n", new="            else:  # no matching indices\n                break\n"),
+    dict(id="c20-term-target-einstein", prop="C20", file=E, expect="R20",
+         old="            return target\n        else:\n            return tuple(s for s, n in self._idx_counter if not n)",
+         new="            return tuple(s for s, n in self._idx_counter if not n)\n        else:\n            return tuple(s for s, n in self._idx_counter if not n)"),
+    dict(id="c20-term-idx-once", prop="C20", file=E, expect="R20c",
+         old="        return tuple(s for s, n in self._idx_counter for _ in range(n + 1))",
+         new="        return tuple(s for s, n in self._idx_counter)"),
+    dict(id="c20-seed-remainder-only", prop="C20", file=S, expect="R20",
+         edits=[("        idx_counter = Counter(term.idx)\n",
+                 "        remainder_idx = {s for i, o in enumerate(obj)\n                         if i not in unitary_tensors for s in o.idx}\n"),
+                ("                    idx_counter[idx1[0]] == 2:", "                    idx1[0] not in remainder_idx:"),
+                ("                    idx_counter[idx1[1]] == 2:", "                    idx1[1] not in remainder_idx:")]),
+    dict(id="c20-seed-einstein-targets", prop="C20", file=S, expect="R20",
+         edits=[("        target = term.target\n        idx_counter = Counter(term.idx)\n",
+                 "        idx_counter = Counter(term.idx)\n        target = {s for s, n in idx_counter.items() if n == 1}\n")]),
+    # ------------------------------------------------------------------ behaviour-preserving edits
     dict(id="c20-ok-rename", prop="C20", file=S, expect=None,
          old="        target = term.target\n        idx_counter = Counter(term.idx)", new="        idx_counter = Counter(term.idx)\n        target = term.target"),
+    dict(id="c20-ok-manual-counter", prop="C20", file=S, expect=None,
+         old="        idx_counter = Counter(term.idx)\n",
+         new="        idx_counter = {}\n        for s in term.idx:\n            idx_counter[s] = idx_counter.get(s, 0) + 1\n"),
+    dict(id="c20-ok-tuple-count", prop="C20", file=S, expect=None,
+         edits=[("        idx_counter = Counter(term.idx)\n", "        all_idx = term.idx\n"),
+                ("                    idx_counter[idx1[0]] == 2:", "                    all_idx.count(idx1[0]) == 2:"),
+                ("                    idx_counter[idx1[1]] == 2:", "                    all_idx.count(idx1[1]) == 2:")]),
+    dict(id="c20-ok-index-loops", prop="C20", file=S, expect=None,
+         old="        for (i1, i2) in combinations(unitary_tensors, 2):\n",
+         new="        for i1, i2 in ((unitary_tensors[n1], unitary_tensors[n2])\n                       for n1 in range(len(unitary_tensors))\n"
+             "                       for n2 in range(n1 + 1, len(unitary_tensors))):\n"),
+    dict(id="c20-ok-position-loop", prop="C20", file=S, expect=None,
+         old=_BRANCHES,
+         new="            for pos in (0, 1):\n                if idx1[pos] == idx2[pos] and idx1[pos] not in target and \\\n"
+             "                        idx_counter[idx1[pos]] == 2:\n                    delta = KroneckerDelta(idx1[1 - pos], idx2[1 - pos])\n"
+             "                    break\n            else:  # no matching indices\n                continue\n"),
+    dict(id="c20-ok-position-list", prop="C20", file=S, expect=None,
+         old=_BRANCHES,
+         new="            shared = [pos for pos in range(2)\n                      if idx1[pos] == idx2[pos] and idx1[pos] not in target\n"
+             "                      and idx_counter[idx1[pos]] == 2]\n            if not shared:\n                continue\n"
+             "            delta = KroneckerDelta(idx1[1 - shared[0]], idx2[1 - shared[0]])\n"),
+    dict(id="c20-ok-divide-out", prop="C20", file=S, expect=None,
+         old="                new_term *= Pow(base, exponent - 2)", new="                new_term *= obj[i1].sympy / base**2"),
+    dict(id="c20-ok-two-step-power", prop="C20", file=S, expect=None,
+         old="                new_term *= Pow(b1, exponent1 - 1)\n", new="                new_term *= Pow(b1, exponent1)\n                new_term *= Pow(b1, -1)\n"),
+    dict(id="c20-ok-target-set", prop="C20", file=S, expect=None,
+         old="        target = term.target\n", new="        target = frozenset(term.target)\n"),
+    dict(id="c20-ok-reversed-terms", prop="C20", file=S, expect=None,
+         old="    for term in expr.terms:\n        res += simplify_term_unitary(term)\n",
+         new="    for term in reversed(expr.terms):\n        res += simplify_term_unitary(term)\n"),
+    dict(id="c20-ok-slice-test", prop="C20", file=S, expect=None,
+         old="        if len(unitary_tensors) < 2:", new="        if not unitary_tensors[1:]:"),
+    dict(id="c20-ok-uniform-lowering", prop="C20", file=S, expect=None,
+         old=_LOWER + "\n            # add remaining objects\n" + _REST,
+         new="            lowered = Counter((i1, i2))\n            for i, o in enumerate(obj):\n"
+             "                base, exponent = o.base_and_exponent\n                new_term *= Pow(base, exponent - lowered[i])\n"),
+    dict(id="c20-ok-rest-first", prop="C20", file=S, expect=None,
+         old="            new_term = e.Expr(delta, **term.assumptions)\n" + _LOWER + "\n            # add remaining objects\n" + _REST,
+         new="            new_term = e.Expr(1, **term.assumptions)\n" + _REST.replace("if i == i1 or i == i2", "if i in {i1, i2}") + _LOWER +
+             "            new_term *= delta\n"),
+    dict(id="c20-ok-counter-get", prop="C20", file=E, expect=None,
+         old="                if s in idx:\n                    idx[s] += n\n                else:  # start counting at 0\n                    idx[s] = n - 1\n",
+         new="                idx[s] = idx.get(s, -1) + n\n"),
+    dict(id="c20-ok-idx-sum", prop="C20", file=E, expect=None,
+         old="        return tuple(s for s, n in self._idx_counter for _ in range(n + 1))",
+         new="        return sum(((s,) * (n + 1) for s, n in self._idx_counter), ())"),
+    dict(id="c20-ok-explicit-assumptions", prop="C20", file=S, expect=None,
+         old="            new_term = e.Expr(delta, **term.assumptions)",
+         new="            new_term = e.Expr(delta, real=term.real, sym_tensors=term.sym_tensors,\n"
+             "                              antisym_tensors=term.antisym_tensors,\n"
+             "                              target_idx=term.provided_target_idx)"),
+    dict(id="c20-ok-evaluate-keyword", prop="C20", file=S, expect=None,
+         old="func.evaluate_deltas(res.sympy)", new="func.evaluate_deltas(expr=res.sympy, target_idx=None)"),
 ]
